@@ -3,6 +3,7 @@ package main
 import (
 	"encoding/json"
 	"fmt"
+	"strconv"
 	"strings"
 	gotime "time"
 
@@ -50,6 +51,15 @@ func init() {
 				should += rec.Should
 			}
 			m["should"] = should
+			var per []any // per record: date, total, should — for the filtered `klog total --diff`
+			for _, rec := range d.Records {
+				t := 0
+				for _, e := range rec.Entries {
+					t += e.Mins
+				}
+				per = append(per, []any{rec.Y, rec.M, rec.D, t, rec.Should})
+			}
+			m["recs"] = per
 			// an instant: on the date of a record, the day after, or unrelated
 			if len(d.Records) > 0 && r.P(3, 4) {
 				rec := Pick(r, d.Records)
@@ -176,6 +186,7 @@ func runC02(env *Env, data map[string]any) *Outcome {
 	}
 	// the places the property names as observation points: `klog json` (per record and per entry)
 	c02Json(env, o, text, rs, wantTotal, wantShould)
+	c02Filtered(env, o, text, data)
 	shifted := strings.Contains(text, "<") || strings.Contains(text, ">") || strings.Contains(text, "?")
 	o.Nontrivial = len(rs) >= 2 && shifted
 	o.Tags = append(o.Tags, fmt.Sprintf("records:%d", min(len(rs), 5)))
@@ -270,4 +281,68 @@ func durCanonPlain(mins int, signed bool) string {
 		s += fmt.Sprintf("%dm", m)
 	}
 	return s
+}
+
+
+// c02Filtered: `klog total --diff --decimal` under a date filter reports the total, the should-total and the diff
+// of exactly the selected records (the should-total is the sum of THEIR should-totals).
+func c02Filtered(env *Env, o *Outcome, text string, data map[string]any) {
+	per, ok := data["recs"].([]any)
+	if !ok || len(per) == 0 {
+		return
+	}
+	type rec struct{ y, m, d, t, s int }
+	var recs []rec
+	for _, x := range per {
+		v, ok := x.([]any)
+		if !ok || len(v) != 5 {
+			return
+		}
+		f := func(i int) int {
+			switch n := v[i].(type) {
+			case float64:
+				return int(n)
+			case int:
+				return n
+			}
+			return 0
+		}
+		recs = append(recs, rec{f(0), f(1), f(2), f(3), f(4)})
+	}
+	pick := recs[len(text)%len(recs)]
+	ds := fmt.Sprintf("%04d-%02d-%02d", pick.y, pick.m, pick.d)
+	key := func(r rec) int { return r.y*10000 + r.m*100 + r.d }
+	flag := []string{"--since", "--until", "--date"}[(len(text)/7)%3]
+	wt, ws := 0, 0
+	for _, r := range recs {
+		sel := false
+		switch flag {
+		case "--since":
+			sel = key(r) >= key(pick)
+		case "--until":
+			sel = key(r) <= key(pick)
+		default:
+			sel = key(r) == key(pick)
+		}
+		if sel {
+			wt += r.t
+			ws += r.s
+		}
+	}
+	file := writeFile(env, "c02f.klg", text)
+	res := runCLI(env, CLIOpts{Now: mkTime(2021, 3, 4, 12, 0)}, "total", "--diff", "--decimal", "--no-style", "--no-warn", flag, ds, file)
+	o.Evals++
+	if res.Panic != "" || res.Code != 0 {
+		o.Findings = append(o.Findings, Finding{Kind: "D", What: "`klog total --diff " + flag + " " + ds + "` fails: " + res.Panic + res.Err, Impl: short(res.Stdout, 300), Signature: crashSignature("C02", res.Panic, data)})
+		return
+	}
+	g := map[string]int{}
+	for _, m := range reTotalLine.FindAllStringSubmatch(res.Stdout, -1) {
+		v, _ := strconv.Atoi(m[2])
+		g[m[1]] = v
+	}
+	if g["Total"] != wt || g["Should"] != ws || g["Diff"] != wt-ws {
+		o.Findings = append(o.Findings, Finding{Kind: "D", What: fmt.Sprintf("`klog total --diff %s %s`: total/should/diff are not those of the selected records (want %d / %d / %d)", flag, ds, wt, ws, wt-ws), Impl: short(res.Stdout, 300)})
+	}
+	o.Tags = append(o.Tags, "filtered:"+flag)
 }
